@@ -240,6 +240,13 @@ fn attribution(text: &str, files: &[&str]) -> Value {
     })
 }
 
+/// the part of stderr that says what went wrong: from "panicked at" on when the run panicked (warnings printed
+/// before it would otherwise fill the excerpt)
+fn message_of(stderr: &str) -> String {
+    let from = stderr.find("panicked at").map(|i| stderr[..i].rfind("thread").unwrap_or(i)).unwrap_or(0);
+    stderr[from..].chars().take(300).collect()
+}
+
 fn how_ended(code: i32, timed_out: bool, stderr: &str) -> &'static str {
     if timed_out || code == 137 || code == 124 {
         "timeout"
@@ -347,7 +354,7 @@ pub fn fe_record(case: &Value, n: u64, scratch: &Path) -> Value {
             json!({"end": how_ended(p.code, p.timed_out, &stderr), "exit": p.code,
                    "report": stdout.contains("Transactions for") || stdout.contains("Aggregate Gains") || wrote || (fe != "acb" && p.code == 0 && !stdout.trim().is_empty())
                              || (opts.iter().any(|o| o.starts_with("summarize")) && p.code == 0),
-                   "flagged": all.contains("[!]") || all.contains("Error in "), "message": clean(&stderr.chars().take(300).collect::<String>()), "says": !stderr.trim().is_empty(),
+                   "flagged": all.contains("[!]") || all.contains("Error in "), "message": clean(&message_of(&stderr)), "says": !stderr.trim().is_empty(),
                    "attr": attribution(&all, &["input.csv", "input.txt", "input.xlsx"])})
         }
     };
